@@ -119,3 +119,41 @@ func vc07(maxN int) {
 
 func VC07_Compat_Quick()    { vc07(3) }
 func VC07_Compat_Thorough() { vc07(5) }
+
+// self-distance, distance to a duplicate, and the dispatch between the two selectable methods
+func vc07Self(n int) {
+	a := c07Genome("a", n)
+	b := c07Genome("b", vChoice("nb", n+1))
+	o := c07Opts()
+	vAssertEqF(a.compatLinear(a, o), 0, "linear distance of a genome to itself is zero")
+	vAssertEqF(a.compatFast(a, o), 0, "fast distance of a genome to itself is zero")
+	d, err := a.duplicate(2)
+	vAssert(err == nil, "duplicate succeeds")
+	if err == nil {
+		vAssertEqF(a.compatLinear(d, o), 0, "linear distance to the duplicate is zero")
+		vAssertEqF(a.compatFast(d, o), 0, "fast distance to the duplicate is zero")
+	}
+	o.GenCompatMethod = neat.GenomeCompatibilityMethodLinear
+	vAssertEqF(a.compatibility(b, o), a.compatLinear(b, o), "option 'linear' selects the linear method")
+	o.GenCompatMethod = neat.GenomeCompatibilityMethodFast
+	vAssertEqF(a.compatibility(b, o), a.compatFast(b, o), "option 'fast' selects the fast method")
+	vReach("end")
+}
+
+func VC07_Self_Quick()    { vc07Self(3) }
+func VC07_Self_Thorough() { vc07Self(5) }
+
+// F-model (IEEE-754, bit exact): neither method returns NaN or a negative value for finite inputs.
+func vc07NaN(maxN int) {
+	n1, n2 := vChoice("n1", maxN+1), vChoice("n2", maxN+1)
+	a, b := c07Genome("a", n1), c07Genome("b", n2)
+	o := c07Opts()
+	lin, fast := a.compatLinear(b, o), a.compatFast(b, o)
+	vAssert(lin == lin, "linear distance is not NaN (IEEE)")
+	vAssert(fast == fast, "fast distance is not NaN (IEEE)")
+	vAssert(lin >= 0, "linear distance non-negative (IEEE)")
+	vAssert(fast >= 0, "fast distance non-negative (IEEE)")
+	vReach("end")
+}
+
+func VC07_NaN_Quick()    { vc07NaN(2) }
